@@ -1149,11 +1149,10 @@ def _load_ce():
     return {}
 
 
-def harness_specs(tier):
-    """generate the TUs, build them with a bounded number of jobs (the runner then finds them cached).  A TU that does
-    not compile is bisected (G.probe): the offending cases become stubs answering `compile-error`, so that the other
-    cases still run and the offending ones are judged like any other answer."""
-    reqs, tus = plan(tier)
+def build_tus(tus):
+    """generate and build the TUs {name: (build, [KCase])} with a bounded number of jobs (the runner then finds them
+    cached).  A TU that does not compile is bisected (G.probe): the offending cases become stubs answering `compile-error`,
+    so that the other cases still run and the offending ones are judged like any other answer.  Returns the harness specs."""
     os.makedirs(G.GEN_DIR, exist_ok=True)
     runner.include_tree_hash()
     ce = _load_ce()           # {build: {case key: error}} for this include tree
@@ -1195,17 +1194,27 @@ def harness_specs(tier):
     return specs
 
 
+def harness_specs(tier):
+    reqs, tus = plan(tier)
+    return build_tus(tus)
+
+
+def make_case(c, build, name):
+    """the runner Case of one generated kind case"""
+    ref = REFS[c.op]
+    exp = ref.oracle(c.vals)
+    nt = exp == 'nothing' or any(isinstance(v, (list, tuple)) and len(v) >= 2 for v in c.vals)
+    tags = ['op=' + c.op, 'build=' + build, 'mode=' + c.mode] + ['kind=' + k for k in sorted(set(c.kinds))] + \
+           (['expect-nothing'] if exp == 'nothing' else [])
+    return Case('k9 id=%s build=%s %s' % (c.key, build, c.text()), name, dom=True, oracle=exp, mreq=ref.mreq(c.vals),
+                nontrivial=nt, tags=tags, cmp=same)
+
+
 def gen(tier, rng):
     reqs, tus = plan(tier)
     for name, (build, cases) in tus.items():
         for c in cases:
-            ref = REFS[c.op]
-            exp = ref.oracle(c.vals)
-            nt = exp == 'nothing' or any(isinstance(v, (list, tuple)) and len(v) >= 2 for v in c.vals)
-            tags = ['op=' + c.op, 'build=' + build, 'mode=' + c.mode] + ['kind=' + k for k in sorted(set(c.kinds))] + \
-                   (['expect-nothing'] if exp == 'nothing' else [])
-            yield Case('k9 id=%s build=%s %s' % (c.key, build, c.text()), name, dom=True, oracle=exp, mreq=ref.mreq(c.vals),
-                       nontrivial=nt, tags=tags, cmp=same)
+            yield make_case(c, build, name)
 
 
 def post(cases, tier):
@@ -1279,3 +1288,184 @@ def coverage_extra(cases, tier):
         'builds': sorted(G.BUILDS),
         'samples': samples,
     }
+
+
+# ------------------------------------------------------------------------------------------------
+# slices of the kind matrix for the properties that own the operations
+# ------------------------------------------------------------------------------------------------
+# A defect seeded into a kind-specific `if constexpr` branch of an operation is invisible to the harness of the property
+# owning that operation when that harness feeds dynamic containers only.  `slice_for` hands such a property the part of the
+# kind matrix that concerns ITS operations, small enough to ride along in its own check.
+OPS_BY_PROPERTY = {
+    'C01': ['compute_strides', 'product', 'compute_offset', 'compute_indices'],
+    'C03': ['shape_reshape', 'shape_transpose', 'v_transpose', 'e_transpose', 'v_reshape', 'e_reshape', 'v_flip', 'v_flip_s',
+            'v_expand_dims', 'v_squeeze'],
+    'C04': ['shape_tile', 'shape_repeat', 'shape_repeat_l', 'shape_concatenate', 'shape_pad', 'v_tile', 'e_tile', 'v_repeat', 'v_pad',
+            'v_concatenate', 'v_take', 'v_where'],
+    'C05': ['shape_slice', 'v_slice'],
+    'C06': ['broadcast_shape', 'broadcast_shape3', 'shape_broadcast_to', 'v_broadcast_to', 'v_broadcast_arrays'],
+    'C07': ['v_add', 'e_add', 'v_where'],
+    'C08': ['remove_dims', 'remove_dims_s', 'normalize_axis', 'normalize_axis_s', 'v_sum', 'v_sum_k', 'v_sum_ks', 'e_sum_k'],
+    # the operations that CAN refuse (use slice_for(..., refused_only=True): only their refused requests)
+    'C15': ['shape_reshape', 'broadcast_shape', 'broadcast_shape3', 'shape_broadcast_to', 'normalize_axis', 'normalize_axis_s',
+            'shape_concatenate', 'shape_pad', 'shape_matmul', 'v_reshape', 'e_reshape', 'v_broadcast_to', 'v_broadcast_arrays', 'v_add',
+            'v_where', 'v_pad'],
+    'C16': ['shape_matmul', 'v_matmul', 'e_matmul'],
+}
+SLICE_BUILD = 'stl-gcc'
+# compile budget of one slice in units of one index-level case (~0.035 s with g++ -O1): quick ~55 s cold, one TU
+SLICE_BUDGET = {'quick': 1600, 'thorough': 6400}
+SLICE_CAP = {'quick': 150, 'thorough': 600}           # cases per operation
+
+
+def _slice_cost(op):
+    return 1 if G.OPS[op].level == 'index' else 3 * OP_WEIGHT.get(op, VIEW_WEIGHT)
+
+
+def _slice_candidates(op, vals, salt, pins):
+    """kind assignments of one request in priority order: the class pairs (constant / clipped / clipped-tight / array /
+    static_vector / vector for the first two list arguments; for views the shape class of the array x every kind of the
+    second argument) first, then the diagonal; constexpr twins directly after their run-time case"""
+    o = G.OPS[op]
+    refusal = REFS[op].oracle(vals) == 'nothing'
+    sup = supported(pins, SLICE_BUILD, op, refusal=refusal)
+    per = G.kinds_per_arg(op, vals, SLICE_BUILD)
+    chosen = []
+    if o.level == 'index':
+        lpos = [j for j, ((an, vt), v) in enumerate(zip(o.args, vals)) if vt in ('L', 'I') and v is not None][:2]
+        if len(lpos) == 2:
+            cls = ['ct', 'cl', 'clt', 'a', 'sv', 'v']
+            t = 0
+            pairs = []
+            for ka in cls:
+                for kb in cls:
+                    if ka in per[lpos[0]] and kb in per[lpos[1]]:
+                        k = [p[t % len(p)] for p in per]
+                        k[lpos[0]] = ka; k[lpos[1]] = kb
+                        pairs.append(tuple(k)); t += 1
+            # compile-time knowledge on ONE side first (a constant argument against a run-time one: array, vector, clipped,
+            # static_vector, tight clipped), then clipped against run-time, then the rest
+            rank = {'a': 0, 'v': 1, 'cl': 2, 'sv': 3, 'clt': 4}
+
+            def prio(k):
+                ka, kb = k[lpos[0]], k[lpos[1]]
+                if (ka == 'ct') != (kb == 'ct'):
+                    return (0, rank[kb if ka == 'ct' else ka], ka != 'ct')
+                if ka != kb and 'ct' not in (ka, kb):
+                    return (1, 0, 0)
+                return (2, 0, 0)
+            chosen += sorted(pairs, key=prio)
+    else:
+        # the second argument in its constant kind against every shape class of the array first (run-time shapes first),
+        # then array / vector / clipped ..., i.e. the pairs of G.view_pairs read column by column
+        pairs = G.view_pairs(op, per)
+        arank = {k: j for j, k in enumerate(['fs_db', 'ds_db', 'a', 'hs_hb', 'cs_hb', 'ls_fb'])}
+        brank = {k: j for j, k in enumerate(['ct', 'a', 'v', 'cl', 'fs_hb', 'cs_fb', 'd', 'sv', 'clt', 'raw', 'tup', 'rt', 'rtz'])}
+        chosen += sorted(pairs, key=lambda k: (brank.get(k[1], 50), arank.get(k[0], 50)))
+    chosen += G.diagonals(per, 1)
+    out, seen = [], set()
+    for k in chosen:
+        for mode in ('rt', 'cx'):
+            if mode == 'cx' and not G.cx_ok(op, vals, k):
+                continue
+            if G.sig(op, k, mode) in sup and (k, mode) not in seen:
+                seen.add((k, mode))
+                out.append(G.KCase(op, vals, k, mode, salt=salt))
+    return out
+
+
+def slice_for(ops, tier, rng, refused_only=False, prefix='k9s'):
+    """The slice of the C09 kind matrix for the operations `ops` (names as in OPS_BY_PROPERTY), for use inside the check of
+    the property that owns them.  Returns `(harness_specs, cases)`:
+
+    * `harness_specs`: what `mod.harness_specs(tier)` returns for the generated TU(s) of the slice (ONE TU, build stl-gcc);
+      the TU is generated and compiled here (a case that does not compile against $VERIF_REPO is stubbed and answers
+      `compile-error`, exactly as in C09 proper), so the runner finds it cached.  The TU name is
+      `<prefix>_<q|t>_<digest of the operation names>`: the same slice requested by two properties is built once.
+    * `cases`: runner `Case` objects in the request format of C09 (`k9 id=.. build=.. op=.. <args> kinds=.. mode=.. salt=..`),
+      `oracle` = the single reference answer (NumPy), `mreq` = the reference op of the Lean driver (`k9_*` / `k9v_*`,
+      answered by Driver.C09 whatever property runs the check), `cmp` = `same` (failure type / compile-time refusal =
+      `nothing`), `dom=True`.
+
+    Content: per operation the fixed requests of C09 (accepted AND refused ones; `refused_only=True` keeps the refused ones,
+    for C15) — in thorough also 10 requests drawn from `rng` — under the kind assignments of `_slice_candidates`
+    (mixed constant / clipped / run-time pairs first, then every kind once), round-robin over the requests, capped at
+    SLICE_CAP[tier] cases per operation and at a total compile budget of SLICE_BUDGET[tier] (~55 s cold in quick; view cases
+    cost 9-30 units, so a slice with many views gets ~10-20 cases per view).  Only pinned-supported signatures are used.
+
+    An open known finding of C09 can show up in a slice: apply `slice_known(case)` before reporting a disagreement."""
+    ops = [op for op in ops if op in REFS]
+    pins = G.load_pins()
+    budget = SLICE_BUDGET.get(tier, SLICE_BUDGET['quick'])
+    cap = SLICE_CAP.get(tier, SLICE_CAP['quick'])
+    per_op = {}
+    for op in ops:
+        ref = REFS[op]
+        view = G.OPS[op].level == 'view'
+        reqs = list(ref.fixed) if (tier != 'quick' or not view) else quick_view_requests(op)
+        if tier != 'quick':
+            reqs += [ref.gen(rng) for _ in range(10)]
+        ok = [v for v in reqs if ref.oracle(v) != 'nothing']
+        bad = [v for v in reqs if ref.oracle(v) == 'nothing']
+        if op in ('shape_reshape', 'v_reshape', 'e_reshape') and not view:
+            # one refused request per class before the second of any class
+            cl = list(RESHAPE_REFUSALS.values())
+            bad = [l[j] for j in range(max(len(l) for l in cl)) for l in cl if j < len(l)] + [v for v in bad if not any(v in l for l in cl)]
+        if tier == 'quick':
+            ok, bad = ok[:3], bad[:(12 if refused_only else 7)]
+        order = []
+        if refused_only:
+            order = bad
+        else:
+            for j in range(max(len(ok), len(bad))):       # accepted and refused requests alternate
+                order += ok[j:j + 1] + bad[j:j + 1]
+        lists = [_slice_candidates(op, v, j % 6, pins) for j, v in enumerate(order)]
+        inter = []
+        for i in range(max([len(l) for l in lists] + [0])):
+            for l in lists:
+                if i < len(l):
+                    inter.append(l[i])
+        per_op[op] = inter[:cap]
+    # share the compile budget: every operation gets an equal share, what an operation cannot use goes to the others
+    want = {op: len(per_op[op]) for op in ops}
+    give = {op: 0 for op in ops}
+    left = budget
+    active = [op for op in ops if want[op] > 0]
+    while active and left > 0:
+        share = left / len(active)
+        progressed = False
+        for op in list(active):
+            n = min(want[op] - give[op], int(share // _slice_cost(op)))
+            if n > 0:
+                give[op] += n; left -= n * _slice_cost(op); progressed = True
+            if give[op] >= want[op]:
+                active.remove(op)
+        if not progressed:
+            break
+    chosen = [c for op in ops for c in per_op[op][:max(give[op], min(want[op], 4))]]
+    if not chosen:
+        return [], []
+    digest = hashlib.sha256((','.join(sorted(ops)) + ('|refused' if refused_only else '')).encode()).hexdigest()[:8]
+    name = '%s_%s_%s' % (prefix, tier[0], digest)
+    specs = build_tus({name: (SLICE_BUILD, chosen)})
+    return specs, [make_case(c, SLICE_BUILD, name) for c in chosen]
+
+
+def slice_known(case):
+    """id of the open C09 known finding whose input-class predicate contains the case (a slice case in the hands of another
+    property), or None.  The entries are read from known/C09.json (falling back to known_findings.json)."""
+    p = os.path.join(runner.ROOT, 'known', 'C09.json')
+    try:
+        entries = json.load(open(p))
+    except Exception:
+        entries = runner.load_known(ID)
+    for e in entries:
+        if e.get('status', 'open') != 'open':
+            continue
+        f = KNOWN_PREDICATES.get(e.get('predicate'))
+        try:
+            if f is not None and f(case):
+                return e['id']
+        except Exception:
+            continue
+    return None
